@@ -219,3 +219,44 @@ func EvalCond(s *Seg, v ssa.Value, bind func(ssa.Value) (int64, bool)) (bool, bo
 	}
 	return false, false
 }
+
+// FoldIntPredicate evaluates a loop-free pure predicate func(int-like) bool at a concrete value by
+// selecting the segment whose facts are consistent with the binding.
+func FoldIntPredicate(fn *ssa.Function, val int64) (result bool, ok bool) {
+	fp := Paths(fn)
+	if len(fp.Headers) > 0 || fp.Truncated || len(fn.Params) != 1 {
+		return false, false
+	}
+	bind := func(v ssa.Value) (int64, bool) {
+		if v == ssa.Value(fn.Params[0]) {
+			return val, true
+		}
+		return 0, false
+	}
+	found := false
+	for _, s := range fp.Segs {
+		feasible := true
+		for _, f := range s.Facts {
+			b, k := EvalCond(s, f.Cond, bind)
+			if !k {
+				return false, false
+			}
+			if b != f.Truth {
+				feasible = false
+			}
+		}
+		if !feasible {
+			continue
+		}
+		ret, isRet := s.Exit.(*ssa.Return)
+		if !isRet || len(ret.Results) != 1 {
+			return false, false
+		}
+		b, k := EvalCond(s, ret.Results[0], bind)
+		if !k || found {
+			return false, false
+		}
+		result, found = b, true
+	}
+	return result, found
+}
